@@ -17,10 +17,15 @@ type loopCtx struct {
 func (fx *Fx) loopAnn(fn *ssa.Function, li *LoopInfo) *LoopAnn {
 	name := fnName(fn)
 	ct := fx.P.Contracts[name]
-	if ct == nil {
-		return nil
+	if ct != nil {
+		if a := ct.Loops[li.Ordinal]; a != nil {
+			return a
+		}
 	}
-	return ct.Loops[li.Ordinal]
+	if fx.Sweep && !isConstLoop(li) {
+		return fx.autoAnn(li)
+	}
+	return nil
 }
 
 func (fx *Fx) loopEntry(st *State, li *LoopInfo, pred *ssa.BasicBlock) *State {
@@ -160,6 +165,9 @@ func (fx *Fx) namedValues(st *State, at *ssa.BasicBlock) map[string]Val {
 func (fx *Fx) loopEntryAfterPhis(st *State, li *LoopInfo) *State {
 	fn := li.Header.Parent()
 	ann := fx.loopAnn(fn, li)
+	if ann.Auto {
+		return fx.autoLoopEntry(st, li)
+	}
 	tag := fmt.Sprintf("loop%d", li.Ordinal)
 	// 1. invariant holds on entry
 	pre := fx.loopVars(st, li)
@@ -218,35 +226,7 @@ func (fx *Fx) loopEntryAfterPhis(st *State, li *LoopInfo) *State {
 	}
 	// 3. havoc
 	havocPhis(st)
-	for k := Kind(0); k < numKinds; k++ {
-		if writes.wide[k] {
-			st.H[k] = Sym(freshName("H!"+k.String()), k.HeapSort())
-			for _, id := range st.escapedIDs() {
-				lo := st.Locals[id]
-				if !lo.Const {
-					lo.Rows[k] = Sym(freshName(fmt.Sprintf("row!%s!L%d", k, id)), k.RowSort())
-				}
-			}
-		}
-		for _, cs := range writes.cells[k] {
-			var o *Term
-			if cs.obj != nil {
-				o = cs.obj
-			} else {
-				if st.Locals[cs.local] == nil {
-					continue
-				}
-				o = LocalObj(cs.local)
-			}
-			if cs.idx == nil {
-				st.SetRow(k, o, Sym(freshName("lrow!"+k.String()), k.RowSort()), True())
-				continue
-			}
-			for _, ix := range cs.idx {
-				st.StoreCell(k, o, ix, Sym(freshName("lcell!"+k.String()), k.Sort()), True())
-			}
-		}
-	}
+	fx.applyWriteSetMem(st, writes)
 	for g := range writes.ghost {
 		if old, ok := st.Ghost[g]; ok {
 			st.Ghost[g] = Sym(freshName("ghost!"+g), old.S)
@@ -369,8 +349,13 @@ func (fx *Fx) dryRun(st *State, li *LoopInfo, serial0, local0 int) *writeSet {
 	}()
 	arr := fx.dryArrivals
 	fx.dryArrivals = nil
+	if fx.keepDry != nil {
+		*fx.keepDry = arr
+	}
 	fx.Obls = fx.Obls[:nO]
-	fx.Assume = fx.Assume[:nA]
+	if !fx.keepAssume {
+		fx.Assume = fx.Assume[:nA]
+	}
 	fx.Returns = fx.Returns[:nR]
 	fx.siteCnt = savedCnt
 	inside := func(t *Term) bool { return mentionsInside(t, serial0, local0) }
@@ -569,7 +554,7 @@ func (fx *Fx) loopBackEdge(st *State, li *LoopInfo, pred *ssa.BasicBlock) {
 	if fx.dry != li {
 		// proof steps: evaluated in the end-of-iteration state with loop-carried names at their head values
 		ann0 := fx.loopAnn(li.Header.Parent(), li)
-		if c0 := fx.loopCtxs[li]; c0 != nil && len(ann0.Asserts) > 0 {
+		if c0 := fx.loopCtxs[li]; c0 != nil && ann0 != nil && len(ann0.Asserts) > 0 {
 			hv := map[string]Val{}
 			fx.nvInclusive = true
 			for k, v := range fx.frameVarsAt(st, pred) {
@@ -597,6 +582,9 @@ func (fx *Fx) loopBackEdge(st *State, li *LoopInfo, pred *ssa.BasicBlock) {
 	}
 	fn := li.Header.Parent()
 	ann := fx.loopAnn(fn, li)
+	if ann.Auto {
+		return // inferred invariants were shown inductive during inference
+	}
 	tag := fmt.Sprintf("loop%d", li.Ordinal)
 	vars := fx.loopVars(st, li)
 	ctx := fx.loopCtxs[li]
@@ -644,4 +632,62 @@ func mentions(t, x *Term) bool {
 		return false
 	}
 	return rec(t)
+}
+
+func (fx *Fx) applyWriteSetMem(st *State, writes *writeSet) {
+	for k := Kind(0); k < numKinds; k++ {
+		if writes.wide[k] {
+			st.H[k] = Sym(freshName("H!"+k.String()), k.HeapSort())
+			for _, id := range st.escapedIDs() {
+				lo := st.Locals[id]
+				if !lo.Const {
+					lo.Rows[k] = Sym(freshName(fmt.Sprintf("row!%s!L%d", k, id)), k.RowSort())
+				}
+			}
+		}
+		for _, cs := range writes.cells[k] {
+			var o *Term
+			if cs.obj != nil {
+				o = cs.obj
+			} else {
+				if st.Locals[cs.local] == nil {
+					continue
+				}
+				o = LocalObj(cs.local)
+			}
+			if cs.idx == nil {
+				st.SetRow(k, o, Sym(freshName("lrow!"+k.String()), k.RowSort()), True())
+				continue
+			}
+			for _, ix := range cs.idx {
+				st.StoreCell(k, o, ix, Sym(freshName("lcell!"+k.String()), k.Sort()), True())
+			}
+		}
+	}
+}
+
+func (fx *Fx) applyWriteSet(st *State, writes *writeSet) {
+	if writes == nil {
+		return
+	}
+	fx.applyWriteSetMem(st, writes)
+	for g := range writes.ghost {
+		if old, ok := st.Ghost[g]; ok {
+			st.Ghost[g] = Sym(freshName("ghost!"+g), old.S)
+		}
+	}
+}
+
+// dryRunKeep is dryRun that also returns the back-edge arrival states and leaves the assumptions of the dry run in
+// place (the caller truncates them after checking candidates).
+func (fx *Fx) dryRunKeep(st *State, li *LoopInfo, serial0, local0 int) (*writeSet, []*State) {
+	nA := len(fx.Assume)
+	var arr []*State
+	fx.keepDry = &arr
+	fx.keepAssume = true
+	ws := fx.dryRun(st, li, serial0, local0)
+	fx.keepDry = nil
+	fx.keepAssume = false
+	_ = nA
+	return ws, arr
 }
